@@ -128,22 +128,34 @@ theorem posOf_map (π : Cand → Cand) (hπ : Function.Injective π) (r : List C
         simp [h, this, ih]
   rw [this]
 
-/-- **Head-to-head margins are equivariant under renaming.** -/
+theorem posOfR_map (π : Cand → Cand) (hπ : Function.Injective π) (r : Ranking) (c : Cand) :
+    posOfR (r.map (List.map π)) (π c) = posOfR r c := by
+  simp only [posOfR, List.length_map]
+  have : List.findIdx (fun s => s.contains (π c)) (r.map (List.map π)) = List.findIdx (fun s => s.contains c) r := by
+    induction r with
+    | nil => rfl
+    | cons s rest ih =>
+      have hs : (s.map π).contains (π c) = s.contains c := by
+        rw [Bool.eq_iff_iff]
+        simp only [List.contains_iff_mem, List.mem_map]
+        constructor
+        · rintro ⟨x, hx, hxe⟩
+          rw [← hπ hxe]; exact hx
+        · intro hx; exact ⟨c, hx, rfl⟩
+      simp only [List.map_cons, List.findIdx_cons, hs, ih]
+  rw [this]
+
+/-- **Head-to-head margins are equivariant under renaming** (tied positions included). -/
 theorem C08_margin_equivariant (π : Cand → Cand) (hπ : Function.Injective π) (p : Profile) (a b : Cand) :
     margin { ballots := p.ballots.map (fun bl => { bl with ranking := bl.ranking.map (List.map π) }),
              cands := p.cands.map π } (π a) (π b) = margin p a b := by
   unfold margin h2h
   simp only [List.map_map, Function.comp_def]
   have key : ∀ (r : Ranking) (x y : Cand),
-      prefShare (r.map (List.map π)).flatten (π x) (π y) = prefShare r.flatten x y := by
+      prefShareR (r.map (List.map π)) (π x) (π y) = prefShareR r x y := by
     intro r x y
-    have : (r.map (List.map π)).flatten = r.flatten.map π := by
-      induction r with
-      | nil => rfl
-      | cons s rest ih => rw [List.map_cons, List.flatten_cons, List.flatten_cons, List.map_append, ih]
-    rw [this]
-    unfold prefShare
-    rw [posOf_map π hπ, posOf_map π hπ]
+    unfold prefShareR
+    rw [posOfR_map π hπ, posOfR_map π hπ]
   simp only [key]
 
 /-- **Head-to-head margins do not depend on the order of the ballots.** -/
